@@ -94,11 +94,7 @@ class ScriptedTransport:
         self.calls = []         # 'close' / 'abort'
         self._transport_details = TransportDetails(
             channel_type=TransportDetails.CHANNEL_TYPE_FUNCTION,
-            channel_framing=TransportDetails.CHANNEL_FRAMING_NATIVE,
-            channel_serializer=TransportDetails.CHANNEL_SERIALIZER_ID_TO_NAME.get(
-                self._serializer.SERIALIZER_ID) if hasattr(
-                    TransportDetails, "CHANNEL_SERIALIZER_ID_TO_NAME") else None,
-        ) if False else TransportDetails()
+            channel_framing=TransportDetails.CHANNEL_FRAMING_NATIVE)
 
     # --- ITransport
     def send(self, msg):
